@@ -88,11 +88,13 @@ type trans struct {
 	fields   map[string]gty    // receiver fields (jsf64ctx)
 	recv     string
 	// stream functions (translate_prog.go)
-	stream             string                   // name of the bitStream parameter
-	psigs              map[string]psig          // translated stream functions
-	hoisted            map[*ast.CallExpr]string // stream calls already bound to a name
-	callbacks          map[string][]gty         // function parameters that draw from the stream: their result types
-	streamOwner        string                   // the *T parameter through which the stream is reached
+	stream             string                    // name of the bitStream parameter
+	psigs              map[string]psig           // translated stream functions
+	hoisted            map[*ast.CallExpr]string  // stream calls already bound to a name
+	callbacks          map[string][]gty          // function parameters that draw from the stream: their result types
+	listFields         map[string]gty            // slice fields of the receiver: element type ("cb:<ty>" for a slice of generators)
+	hoistedIdx         map[*ast.IndexExpr]string // elements of slice fields already bound to a name
+	streamOwner        string                    // the *T parameter through which the stream is reached
 	recvName, recvType string
 	pureFns            map[string]sig  // func fields of the receiver
 	needDefault        map[string]bool // type parameters whose zero value is used
@@ -246,6 +248,10 @@ func (t *trans) expr(e ast.Expr, want gty) (string, gty) {
 		return t.binary(x, want)
 	case *ast.CallExpr:
 		return t.call(x, want)
+	case *ast.IndexExpr:
+		if n, ok := t.hoistedIdx[x]; ok {
+			return n, t.env[n]
+		}
 	}
 	panic(fmt.Sprintf("translate: unsupported expression %T: %s", e, exprText(t.p.fset, e)))
 }
@@ -407,6 +413,11 @@ func (t *trans) call(c *ast.CallExpr, want gty) (string, gty) {
 			a, _ := t.expr(c.Args[0], "f64")
 			b, _ := t.expr(c.Args[1], "f64")
 			return fmt.Sprintf("(Go.FX.call2 %q %s %s)", fn, a, b), "f64"
+		}
+	}
+	if fn == "len" && len(c.Args) == 1 {
+		if _, ok := t.listFields[exprText(t.p.fset, c.Args[0])]; ok {
+			return "(Go.glen " + cbName(exprText(t.p.fset, c.Args[0])) + ")", "i64"
 		}
 	}
 	switch fn {
@@ -1018,7 +1029,7 @@ func emitTranslated(p *pkgInfo) (out string, err error) {
 	t := &trans{p: p, ren: map[string]string{}, sigs: map[string]sig{}, psigs: map[string]psig{}}
 	knownStructs = p.structs
 	var b strings.Builder
-	b.WriteString("/- GENERATED by extract (translate.go) from /repo's current source: do not edit.\n   Go functions of the subset the translator understands, as Lean definitions; shifts and rotations\n   have Go's semantics (RapidModel/GoSem.lean). -/\nimport RapidModel.GoProg\nimport RapidModel.GoImp\n\nset_option linter.unusedVariables false\n\nnamespace Rapid.Translated\n\n")
+	b.WriteString("/- GENERATED by extract (translate.go) from /repo's current source: do not edit.\n   Go functions of the subset the translator understands, as Lean definitions; shifts and rotations\n   have Go's semantics (RapidModel/GoSem.lean). -/\nimport RapidModel.GoProg\nimport RapidModel.GoImp\nimport RapidModel.GoProgImp\n\nset_option linter.unusedVariables false\n\nnamespace Rapid.Translated\n\n")
 	b.WriteString(t.function("bitmask64", "bitmask64"))
 	b.WriteString("\n")
 	b.WriteString(t.function("ufloatFracBits", "ufloatFracBits"))
@@ -1081,7 +1092,7 @@ func emitTranslated(p *pkgInfo) (out string, err error) {
 	b.WriteString("\n")
 	b.WriteString(t.exprFn("findBugSeedStep", "seed of the next test case in findBug", seedRhs, et, "u64"))
 	b.WriteString("\n/-! ### functions on the bit stream, in continuation-passing style over `Prog` -/\n\n")
-	for _, fn := range []string{"genFloat01", "genGeom", "genUintNNoReject", "genUintNUnbiased", "genUintNBiased", "genUintN", "genUintRange", "flipBiasedCoin", "genIntRange", "genIndex", "find", "filteredGen.maybeValue", "filteredGen.value", "customGen.value", "mappedGen.value"} {
+	for _, fn := range []string{"genFloat01", "genGeom", "genUintNNoReject", "genUintNUnbiased", "genUintNBiased", "genUintN", "genUintRange", "flipBiasedCoin", "genIntRange", "genIndex", "find", "filteredGen.maybeValue", "filteredGen.value", "customGen.value", "mappedGen.value", "sampledGen.value", "oneOfGen.value"} {
 		b.WriteString(t.progFunction(fn, true))
 		b.WriteString("\n")
 	}
